@@ -15,16 +15,19 @@ KNOWN = VERIF / "known_findings.txt"
 
 
 class Obligation:
-    __slots__ = ("rule", "construct", "ok", "loc", "message", "facts")
+    __slots__ = ("rule", "construct", "ok", "loc", "message", "facts", "undecided")
 
     def __init__(self, rule: str, construct: str, ok: bool, loc: str,
-                 message: str, facts: int):
+                 message: str, facts: int, undecided: bool = False):
         self.rule = rule
         self.construct = construct
         self.ok = ok
         self.loc = loc
         self.message = message
         self.facts = facts
+        # the rule could not recognise the construct it reasons about (a spelling outside its
+        # fragment): neither discharged nor refuted
+        self.undecided = undecided and not ok
 
     def key(self) -> Tuple[str, str]:
         return (self.rule, self.construct)
@@ -55,12 +58,16 @@ class Check:
         self.rule_text[rid] = text
 
     def ob(self, rule: str, construct: str, ok: bool, loc: str, message: str,
-           facts: int = 1) -> bool:
+           facts: int = 1, undecided: bool = False) -> bool:
         """One obligation.  ``construct`` is the line-independent key.
         ``facts``: number of resolved facts that went into the decision
-        (0 marks a trivial obligation)."""
-        self.obs.append(Obligation(rule, construct, bool(ok), loc, message, facts))
+        (0 marks a trivial obligation).  ``undecided``: a failure means "the rule does not
+        understand this spelling" (exit 2), not "the code contradicts the rule" (exit 1)."""
+        self.obs.append(Obligation(rule, construct, bool(ok), loc, message, facts, undecided))
         return bool(ok)
+
+    def cannot_decide(self, rule: str, construct: str, loc: str, message: str) -> None:
+        self.obs.append(Obligation(rule, construct, False, loc, message, 1, True))
 
     def adopt(self, other: "Check", pred=None, rule: Optional[str] = None) -> int:
         """take over the obligations another property's rule function produced
@@ -69,7 +76,7 @@ class Check:
         for o in other.obs:
             if pred is not None and not pred(o):
                 continue
-            self.obs.append(Obligation(rule or o.rule, o.construct, o.ok, o.loc, o.message, o.facts))
+            self.obs.append(Obligation(rule or o.rule, o.construct, o.ok, o.loc, o.message, o.facts, o.undecided))
             n += 1
         self.functions |= other.functions
         self.call_sites += other.call_sites
@@ -97,7 +104,16 @@ class Check:
         seen: Set[Tuple[str, str]] = set()
         out = []
         for o in self.obs:
-            if not o.ok and o.key() not in seen:
+            if not o.ok and not o.undecided and o.key() not in seen:
+                seen.add(o.key())
+                out.append(o)
+        return out
+
+    def undecided(self) -> List[Obligation]:
+        seen: Set[Tuple[str, str]] = set()
+        out = []
+        for o in self.obs:
+            if not o.ok and o.undecided and o.key() not in seen:
                 seen.add(o.key())
                 out.append(o)
         return out
@@ -175,6 +191,7 @@ def finish(chk: Check, t0: float, seed: int, audit: Optional[Dict[str, Any]] = N
         "known_findings_matched": [
             {"rule": v.rule, "construct": v.construct, "at": v.loc} for v, _ in known_hit],
         "new_violations": [v.as_dict() for v in new],
+        "undecided": [v.as_dict() for v in chk.undecided()],
         "repo_root": str(chk.repo.root),
         "exhaustive": True,
     }
@@ -203,6 +220,11 @@ def finish(chk: Check, t0: float, seed: int, audit: Optional[Dict[str, Any]] = N
              len(chk.functions), chk.tier, time.time() - t0))
     if new:
         return 1
+    und = chk.undecided()
+    if und:
+        for v in und:
+            print("ANALYSIS-ERROR: cannot decide %s %s at %s: %s" % (v.rule, v.construct, v.loc, v.message))
+        return 2
     if chk.floor_failures:
         for ff in chk.floor_failures:
             print("ANALYSIS-ERROR: %s" % ff)
